@@ -129,8 +129,7 @@ def runQuery (sm : MP.SplineModel) (lm : Std.HashMap ℕ (ℕ × ℕ)) (q : Val)
     match decObj ov, decSec sv with
     | some o, some sec =>
       match sm.getItem o with
-      | .ok (id, ori) =>
-        .list [encView lm (sm.cat.viewSection id ori sec true), encView lm (sm.cat.viewSection id ori sec false)]
+      | .ok (id, ori) => encView lm (sm.cat.viewSection id ori sec)
       | .error e => errVal e
     | _, _ => bad
   | _ => bad
